@@ -93,7 +93,8 @@ def run(ctx):
     scripted = gen_scripted(ctx, bufsize) if unit == UNIT else []
     std = gen_std(ctx, bufsize)
     dsc = gen_dataset(ctx)
-    payload = {"std": std, "dataset": dsc,
+    thr = [{"sizes": [400000, 300001, 262144, 131073], "algs": ["sha256", "xxh64"], "rounds": ctx.scale(60, 300)}]
+    payload = {"std": std, "dataset": dsc, "threads": thr,
                "scripted": [{"n": c["n"] * unit, "wants": [w * unit for w in c["wants"]], "algs": c["algs"]} for c in scripted]}
     res = common.run_impl("hash_run.py", payload, timeout=1800)
     # 1. the property on the implementation: digests equal the standard one-shot digests
@@ -107,6 +108,9 @@ def run(ctx):
             for g, name in zip(r["got"] if isinstance(r["got"], list) else [], c["algs"]):
                 if name == a and g != v:
                     ctx.report("digest-mismatch-cli", f"{a}sum disagrees for a {c['n']}-byte file", {"mode": "std", "case": c, "impl": r})
+    for c, r in zip(thr, res.get("threads", [])):
+        if r["wrong"]:
+            ctx.report("concurrent-hashing-wrong", f"{len(c['sizes'])} threads hashing different files at the same time: {r['wrong']} of {r['calls']} results differ from the standard digests", {"mode": "threads", "case": c, "impl": r})
     for c, r in zip(dsc, res["dataset"]):
         if r["bad"]:
             ctx.report("recorded-digest-mismatch", f"dataset {c}: recorded checksum differs from the digest of the file: {r['bad'][:3]}",
@@ -160,7 +164,7 @@ def run(ctx):
         "rule": "std: files of size 0,1,B-1,B,B+1,2B+-1,3B+5,... x tuples over the 13 algorithms (order, repetition) vs one-shot digests; "
                 "scripted: short-read scripts vs the model's chunk boundaries; dataset: recorded checksums of every shard/list/description file vs one-shot digests. "
                 "non-trivial = multi-chunk file, repeated algorithm, or script with > 2 reads",
-        "std_cases": len(std), "scripted_cases": len(scripted), "dataset_cases": len(dsc),
+        "std_cases": len(std), "scripted_cases": len(scripted), "dataset_cases": len(dsc), "concurrent_hash_calls": sum(r["calls"] for r in res.get("threads", [])),
         "dataset_files_checked": sum(r["files"] for r in res["dataset"]),
         "largest_dataset_file": max([r["max_size"] for r in res["dataset"]] + [0]),
         "model_vs_impl_disagreements": disagreements,
@@ -181,4 +185,6 @@ def replay(ctx, rp):
         return res["got"] == res["want"]
     if mode == "dataset":
         return not res["bad"]
+    if mode == "threads":
+        return not res["wrong"]
     return all(res["concat_ok"]) and not res["error"]
